@@ -276,20 +276,51 @@ def relational(run, seed, models, thorough):
     from cogent3 import make_aligned_seqs
 
     aln = make_aligned_seqs({"a": "ACGTACGTTGCA", "b": "ACGTACATTGCA", "c": "ACCTACGTTGAA"}, moltype="dna")
-    for dist, bins, shape, equal in (("gamma", 4, 0.7, True), ("gamma", 3, 2.5, True), ("gamma", 4, 0.3, False), ("gamma", 2, 1.3, False), ("free", 2, None, False), ("free", 3, None, False)):
+    # the classes are given as a count (bin0, bin1, ...), as names in a declared order that is NOT alphabetical, and as a
+    # count beyond ten (bin10 sorts before bin2): the multiplier of a class is a function of the class's POSITION in the
+    # declared order (the order bprobs has), never of its name
+    NAMES = ["slow", "medium", "fast", "faster"]
+    plain = get_model("HKY85")
+    for dist, bins, shape, equal in (("gamma", 4, 0.7, True), ("gamma", 3, 2.5, True), ("gamma", 4, 0.3, False), ("gamma", 2, 1.3, False), ("free", 2, None, False), ("free", 3, None, False), ("gamma", 12, 0.9, False)):
         sm = get_model("HKY85", ordered_param="rate", distribution=dist)
-        lf = sm.make_likelihood_function(tree(), bins=bins)
-        lf.set_alignment(aln)
-        if shape is not None:
-            lf.set_param_rule("rate_shape", value=shape)
-        if not equal:
-            w = [rnd.uniform(0.2, 1.0) for _ in range(bins)]
-            lf.set_param_rule("bprobs", value=[x / sum(w) for x in w])
-        bp = lf.get_param_value("bprobs")
-        rates = [lf.get_param_value("rate", bin=b) for b in lf.bin_names]
-        n += 1
-        if abs(sum(p * r for p, r in zip(bp, rates)) - 1.0) > 1e-9:
-            run.fail(f"relational:rate-classes:{dist}:{'equal' if equal else 'unequal'}-bprobs", {"bprobs": list(map(float, bp)), "rates": list(map(float, rates))}, what="rate-class multipliers do not average to one")
+        w = [rnd.uniform(0.2, 1.0) for _ in range(bins)]
+        by_naming = {}
+        for naming in ("count", "names"):
+            if naming == "names" and bins > len(NAMES):
+                continue
+            lf = sm.make_likelihood_function(tree(), bins=bins if naming == "count" else NAMES[:bins])
+            lf.set_alignment(aln)
+            lf.set_param_rule("kappa", value=2.5, is_constant=True)
+            if shape is not None:
+                lf.set_param_rule("rate_shape", value=shape)
+            if not equal:
+                lf.set_param_rule("bprobs", value=[x / sum(w) for x in w])
+            bp = lf.get_param_value("bprobs")
+            rates = [float(lf.get_param_value("rate", bin=b)) for b in lf.bin_names]
+            by_naming[naming] = rates
+            n += 1
+            tag = f"{dist}:{'equal' if equal else 'unequal'}-bprobs" + ("" if naming == "count" and bins <= 10 else (":named-classes" if naming == "names" else ":more-than-ten-classes"))
+            if abs(sum(p * r for p, r in zip(bp, rates)) - 1.0) > 1e-9:
+                run.fail(f"relational:rate-classes:{tag}", {"bprobs": list(map(float, bp)), "rates": rates, "classes": list(lf.bin_names)}, what="rate-class multipliers do not average to one")
+                continue
+            # the multiplier each class actually USES: its substitution probabilities are those of the plain process run for
+            # length x multiplier; averaged over classes the expected number of substitutions is the branch length
+            t = lf.get_param_value("length", edge="a")
+            mp = lf.get_motif_probs().to_dict() if hasattr(lf.get_motif_probs(), "to_dict") else dict(lf.get_motif_probs())
+            for b, r in zip(lf.bin_names, rates):
+                ref = plain.make_likelihood_function(tree())
+                ref.set_alignment(aln)
+                ref.set_motif_probs(mp)
+                ref.set_param_rule("kappa", value=2.5, is_constant=True)
+                ref.set_param_rule("length", edge="a", value=t * r, is_constant=True)
+                pb = lf.get_psub_for_edge("a", bin=b).array
+                pr = ref.get_psub_for_edge("a").array
+                n += 1
+                if np.abs(pb - pr).max() > 1e-9:
+                    run.fail(f"relational:rate-classes:{tag}:class-uses-another-multiplier", {"class": b, "classes": list(lf.bin_names), "reported_rate": r, "bprobs": list(map(float, bp)), "max_abs_diff": float(np.abs(pb - pr).max())}, what="a rate class's substitution probabilities are not those of length x the class's reported multiplier")
+                    break
+        if "names" in by_naming and any(abs(a - b) > 1e-12 for a, b in zip(by_naming["count"], by_naming["names"])):
+            run.fail(f"relational:rate-classes:{dist}:multipliers-depend-on-class-names", {"by_count": by_naming["count"], "by_names": by_naming["names"], "names": NAMES[:bins]}, what="the same classes in the same declared order get other multipliers when they are named")
     return n
 
 
